@@ -65,6 +65,13 @@ func TestC15Child(t *testing.T) {
 			fmt.Fprintf(out, "W %d %s\n", off, p.Payload)
 		}
 		fmt.Fprintf(out, "E %d\n", off)
+		// the delivery scheduler's other half (the writer) lags behind the consumer and reads messages back by offset
+		// while the consumer moves on: such a read must neither fail nor disturb the consumption
+		if off >= 3 {
+			if q, err := log.Get(off - 3); err != nil || string(q.Payload) != strconv.FormatUint(off-3, 10) {
+				fmt.Fprintf(out, "W %d read-back-of-%d-failed\n", off, off-3)
+			}
+		}
 		if int64(off) == crashK && crashPhase == "cb-enter" {
 			die()
 		}
